@@ -1452,6 +1452,10 @@ func ruleODBank(c *Ctx, s *readFileShape) {
 		return
 	}
 	key2 := fnKey(ex) + "/fresh-bank"
+	if probs, ok := extractByFold(P, ex); ok {
+		c.Check(len(probs) == 0, key2, P.pos(ex.Pos()), "ExtractResourceBank folded on a reader holding bank B0: it returns B0, and the reader then holds a bank that is not B0 — what the pool's Get handed back, or a new one", "ExtractResourceBank does not hand out the old bank and install a fresh one: "+strings.Join(probs, "; "))
+		return
+	}
 	var load *ssa.UnOp
 	var store *ssa.Store
 	for _, b := range ex.Blocks {
@@ -1613,4 +1617,66 @@ func emptiesBufferOnEveryPath(h *ssa.Function, bufPath, callerRecv string) bool 
 		}
 	}
 	return true
+}
+
+// extractByFold: ExtractResourceBank folded (E-CP) on a reader whose bank is a known cell B0.
+func extractByFold(P *Program, ex *ssa.Function) (problems []string, ok bool) {
+	R := resourceRoles(P)
+	rdN := P.NamedType(P.Avro, "ReadBuf")
+	rbN := P.NamedType(P.Avro, "ResourceBank")
+	if !R.ok || rdN == nil || rbN == nil || ex == nil || len(ex.Params) != 1 {
+		return nil, false
+	}
+	e := &cpEngine{P: P, MaxOut: 16, MaxSteps: 20000, MaxForks: cpMaxForks, MaxDepth: 8, visited: map[*ssa.Function]bool{}}
+	e.globals = cpInitGlobals(P)
+	e.pending = [][]bool{nil}
+	n := 0
+	for len(e.pending) > 0 {
+		d := e.pending[len(e.pending)-1]
+		e.pending = e.pending[:len(e.pending)-1]
+		e.decisions, e.taken, e.steps, e.calls, e.uid, e.decided = d, nil, 0, nil, 0, map[string]bool{}
+		b0 := &cpCell{V: cpStructOf(types.Type(rbN), map[string]cpVal{}), T: types.Type(rbN)}
+		rd := cpPtrTo(cpStructOf(types.Type(rdN), map[string]cpVal{R.rb: cpPtr{C: b0}}), types.Type(rdN))
+		var res []cpVal
+		aborted := ""
+		func() {
+			defer func() {
+				if x := recover(); x != nil {
+					if a, isA := x.(cpAbort); isA {
+						aborted = a.why
+						return
+					}
+					panic(x)
+				}
+			}()
+			res = e.call(ex, []cpVal{rd}, 0)
+		}()
+		if aborted != "" {
+			return nil, false
+		}
+		n++
+		if len(res) != 1 {
+			return nil, false
+		}
+		if p, isP := res[0].(cpPtr); !isP || p.C != b0 {
+			problems = append(problems, "the bank returned is not the one the reader held")
+		}
+		now, _ := cpFieldByName(rd.C.V, R.rb)
+		switch x := now.(type) {
+		case cpPtr:
+			if x.C == b0 {
+				problems = append(problems, "the reader still holds the bank it has just handed out")
+			}
+		case cpUnk:
+			// what came out of the pool (a type-asserted result of Get): fine
+			if !strings.Contains(x.ID, "assert") && !strings.Contains(x.ID, "call") {
+				problems = append(problems, "the reader's bank after the call is not a freshly obtained one")
+			}
+		case nil, cpNil:
+			problems = append(problems, "the reader is left without a bank")
+		default:
+			problems = append(problems, "the reader's bank after the call is not a freshly obtained one")
+		}
+	}
+	return dedup(problems), n > 0
 }
